@@ -768,7 +768,7 @@ func (g *gctx) special(d int) string {
 	dyn := func() string { // something that makes the scope dynamic or captures bindings
 		return g.pick(`eval("")`, `eval("`+v+`")`, `eval("var `+w+` = 1")`, "(() => "+v+")()", "with (o) { "+v+" }", "(function() { return "+v+" })()", "0")
 	}
-	switch g.r.Intn(23) {
+	switch g.r.Intn(27) {
 	case 0, 1: // switch + lexical declaration + dynamic scope / closures
 		decl := g.pick("let "+v+" = "+e(), "const "+v+" = "+e(), "class "+v+" {}", "let ["+v+"] = [1]", "function "+v+"() {}", "let "+v)
 		if g.strict && strings.Contains(decl, "function") {
@@ -835,10 +835,59 @@ func (g *gctx) special(d int) string {
 		return "try { var " + v + " = /" + g.pick("a", "a*", "(?:)", ".", "\\u{1F600}", "(a)|b", "$", "(?<n>a)") + "/" + fl + "; " + v + ".lastIndex = " + g.pick("5", "2", "-1", "2**32", "Infinity", "1") + "; " +
 			g.pick(`"aa".replace(`+v+`, "b")`, `"aa".replace(`+v+`, () => "$1")`, `"a\u{1F600}a".replace(`+v+`, "$<n>")`, v+`[Symbol.replace]("aa", "b")`, `"aa".split(`+v+`)`, `[..."aa".matchAll(/a/g)]`,
 				v+`.exec("aa")`, v+`.test("a")`, `"aa".match(`+v+`)`, `"aa".search(`+v+`)`, `"aa".replaceAll(/a/g, "$'")`, v+`[Symbol.split]("aa", 1)`) + "; } catch (e) {}"
-	case 12: // \u{...} escapes (astral code points included) in identifiers, labels, property names, private names
-		id := g.pick(`\u{1d4d0}`, `a\u{10000}`, `\u{61}b`, `ac`, `\u{2F800}`, `\u{1d4d0}\u{1d4d1}`, `\u{10FFFF}`, `\u{110000}`, `𝓐`, `\u{200c}`, `a\u{200d}`)
-		return g.pick("var "+id+" = 1; "+id+"++;", id+": for (;;) { break "+id+"; }", "({"+id+": 1})."+id+";", "o."+id+" = "+id+";", "class "+v+" { #"+id+" = 1; m() { return this.#"+id+" } }", "function "+id+"("+id+") {}",
-			"let {"+id+": "+v+"} = o;", "`${"+id+"}`;", "var "+id+"; ({"+id+"} = o);", id+" => "+id+";", "import."+id+";", "typeof "+id+";")
+	case 12: // \u{...} / \uXXXX / \x escapes with boundary code points, in every position an escape may appear
+		cp := g.pick("0", "7F", "80", "7FF", "800", "D7FF", "D800", "DBFF", "DC00", "DFFF", "E000", "FFFF", "10000", "1d4d0", "2F800", "10FFFF", "110000", "1FFFFF",
+			"0000061", "00000000061", "000000010FFFF", "FFFFFFFFF", "61", "200c", "200d", "2028", "")
+		esc := g.pick("\\u{"+cp+"}", "\\u{"+cp+"}", "\\u{"+cp+"}", "\\u{"+cp, "\\u"+g.pick("0061", "D800", "DC00", "D83D\\uDE00", "DE00\\uD83D", "FFFF", "00", "{}"), "\\x"+g.pick("41", "4", "g0"))
+		id := g.pick(esc, "a"+esc, esc+"b", esc+esc, "\\u{1d4d0}", "a\\u{10000}")
+		switch g.r.Intn(16) {
+		case 0:
+			return "var s" + v + " = \"" + esc + "\" + '" + esc + "x';"
+		case 1:
+			return "var s" + v + " = `" + esc + "${" + e() + "}" + esc + "`;"
+		case 2:
+			return "String.raw`" + esc + "${1}" + esc + "`; (x => x)`a" + esc + "`; f`" + esc + "`;"
+		case 3:
+			return "/" + esc + "/" + g.pick("u", "", "v", "gu", "y") + ".test(\"" + esc + "\");"
+		case 4:
+			return "new RegExp(\"" + strings.ReplaceAll(esc, "\\", "\\\\") + "\", \"" + g.pick("u", "", "gu") + "\").exec(\"a\");"
+		case 5:
+			return "/[" + esc + "-" + esc + "]|(?<" + g.pick("n", id) + ">a)\\k<" + g.pick("n", id) + ">/" + g.pick("u", "") + ";"
+		case 6:
+			return "var " + id + " = 1; " + id + "++;"
+		case 7:
+			return id + ": for (;;) { break " + id + "; }"
+		case 8:
+			return "({" + id + ": 1})." + id + "; ({\"" + esc + "\": 1, '" + esc + "'() {}, get " + id + "() { return 1 }});"
+		case 9:
+			return "o." + id + " = 1; o?." + id + "; o[\"" + esc + "\"];"
+		case 10:
+			return "class " + v + " { #" + id + " = 1; " + id + "() { return this.#" + id + " } static \"" + esc + "\" = 1 }"
+		case 11:
+			return "function " + id + "(" + id + ") {} let {" + id + ": " + w + "} = o; " + id + " => " + id + ";"
+		case 12:
+			return "eval(\"'" + strings.ReplaceAll(esc, "\\", "\\\\") + "'\"); new Function(\"return \\\"" + strings.ReplaceAll(esc, "\\", "\\\\") + "\\\"\")();"
+		case 13:
+			return "JSON.parse('\"" + strings.ReplaceAll(esc, "\\", "\\\\") + "\"'); decodeURIComponent(\"%" + g.pick("F4%8F%BF%BF", "F4%90%80%80", "ED%A0%80", "C0%80", "FF") + "\"); String.fromCodePoint(0x" + g.pick("10FFFF", "110000", "D800", "0") + ");"
+		case 14:
+			return "\"" + esc + "\".codePointAt(0); \"" + esc + "\".normalize(); encodeURIComponent(\"" + esc + "\"); \"" + esc + "\".isWellFormed?.();"
+		default:
+			return "var " + w + " = {\"" + esc + "\": `" + esc + "`}; for (var k" + v + " in " + w + ") " + w + "[k" + v + "]; typeof " + id + "; /* " + esc + " */"
+		}
+	case 22: // malformed iterator / iterable protocols on every built-in consumer
+		nx := g.pick("", "next: 1", "next: null", "next() { return 1 }", "next() { return null }", "next() { return {} }", "next() { return {done: true} }", "next() { throw 1 }",
+			"get next() { throw 2 }", "next() { return {get done() { throw 3 }} }", "next() { return {done: false, get value() { throw 4 }} }",
+			"next() { return {done: this.n++ > 1, value: 1} }, n: 0, return: 1", "next() { return {done: this.n++ > 1, value: 1} }, n: 0, get return() { throw 5 }",
+			"next() { return {done: false, value: 1} }, return() { return 1 }", "next() { return {done: false, value: 1} }, return() { throw 6 }", "next: "+e())
+		ret := g.pick("{"+nx+"}", "{"+nx+"}", "1", "null", "undefined", "\"s\"", "function() {}", "new Proxy({}, {get() { throw 7 }})", "Object.create({"+nx+"})", "[][Symbol.iterator]()", e())
+		it := g.pick("{[Symbol.iterator]() { return "+ret+" }}", "{[Symbol.iterator]: "+g.pick("1", "null", "() => "+ret, "function*() { yield* "+ret+" }")+"}", "{get [Symbol.iterator]() { throw 8 }}",
+			"{[Symbol.asyncIterator]() { return "+ret+" }}", "Object.assign([1, 2], {[Symbol.iterator]() { return "+ret+" }})")
+		use := g.pick("for (var u"+v+" of IT) { "+g.pick("", "break;", "continue;", "throw 1;")+" }", "[...IT];", "f(...IT);", "new f(...IT);", "var ["+v+", "+w+"] = IT;", "var ["+v+", ..."+w+"] = IT;", "["+v+" = 1] = IT;",
+			"(function*() { yield* IT })().next();", "Array.from(IT);", "new Map(IT);", "new Set(IT);", "new WeakMap(IT);", "new WeakSet(IT);", "Promise.all(IT);", "Promise.race(IT);", "Promise.allSettled(IT);", "Promise.any(IT);",
+			"Object.fromEntries(IT);", "new Uint8Array(IT);", "Uint8Array.from(IT);", "(async function() { for await (var a"+v+" of IT) { "+g.pick("", "break;")+" } })();", "Math.max(...IT);", "new Array(...IT);",
+			"for (var ["+v+"] of [IT]) ;", "(function(["+v+"]) {})(IT);", "(({p: ["+v+"]}) => 0)({p: IT});", "String.raw({raw: IT});", "Array.prototype.concat.call([], IT);", "arr.flatMap(() => IT);",
+			"new (class extends Map {})(IT);", "Reflect.apply(f, null, IT);", "[].push(...IT);", "new Intl.ListFormat?.().format(IT);", "structuredClone?.(IT);")
+		return "try { var " + w + "; " + strings.ReplaceAll(use, "IT", g.pick("("+it+")", "("+it+")", "i"+v)) + " } catch (e) {} var i" + v + " = " + it + ";"
 	case 13, 14: // destructuring heads of for-in / for-of with closures capturing some of the bindings
 		kw := g.pick("let", "const", "var")
 		pat := g.pick("["+v+", "+w+"]", "{p: "+v+", q: "+w+"}", "["+v+", {r: "+w+"} = {}]", "{"+v+" = 1, ..."+w+"}", "["+v+" = () => "+w+", "+w+"]", "["+v+", ..."+w+"]", "{length: "+v+", [0]: "+w+"}")
@@ -872,7 +921,7 @@ func (g *gctx) special(d int) string {
 	case 19: // class fields / static blocks / computed keys with side effects and super
 		return "try { class " + v + " extends " + g.pick("Object", "f", "null", "(class { constructor() { this.b = 1 } })") + " { [" + e() + "] = " + e() + "; static [" + e() + "] = " + g.pick("this", "super.x", "new.target", e()) +
 			"; static { " + g.pick("super.x = 1;", "this.y = () => super.z;", "try { "+v+"; } finally { }", g.stmt(d-1)) + " } " + g.pick("constructor() { "+g.pick("super();", "super(...arr);", "return o;", "(() => super())();", "")+" }", "") + " } new " + v + "; } catch (e) {}"
-	case 21: // a labelled block between a loop and a try statement whose handlers both continue the loop and break to the label
+	case 21, 23: // a labelled block between a loop and a try statement whose handlers both continue the loop and break to the label
 		jmp := func() string {
 			return g.pick("if ("+g.pick("y", "x", "1", "0")+") continue; break L"+v+";", "continue;", "break L"+v+";", "if (y++) break L"+v+"; continue;", "if (y) continue; else break L"+v+";", "")
 		}
@@ -893,6 +942,45 @@ func (g *gctx) special(d int) string {
 		}
 	case 20: // labelled blocks, break out of try/finally, nested finally
 		return "L" + v + ": { try { try { " + g.pick("break L"+v+";", "throw 1;", e()+";") + " } finally { " + g.pick("break L"+v+";", "y++;", "try { throw 2 } catch { }") + " } } catch (e) { " + g.pick("break L"+v+";", "") + " } finally { " + g.pick("", "y--;") + " } }"
+	case 24, 25: // jumps and function-bound keywords used ACROSS a function-like boundary (labels, break/continue, return,
+		// yield, await, arguments, super, new.target): each must give a SyntaxError / plain behaviour, never an internal diagnostic
+		kw := g.pick("break L"+v+";", "continue L"+v+";", "break;", "continue;", "return 1;", "yield 1;", "yield* arr;", "await 1;", "arguments;", "arguments[0] = 1;",
+			"super.x;", "super();", "new.target;", "L"+v+": 1;", "var arguments;", "let yield;", "let await;", "import.meta;")
+		kwe := strings.TrimSuffix(kw, ";")
+		if strings.HasPrefix(kwe, "break") || strings.HasPrefix(kwe, "continue") || strings.HasPrefix(kwe, "return") || strings.HasPrefix(kwe, "var ") || strings.HasPrefix(kwe, "let ") || strings.HasPrefix(kwe, "L"+v) {
+			kwe = g.pick("arguments", "new.target", "super.x", "(yield 1)", "(await 1)", "yield", "await")
+		}
+		boundary := g.pick(
+			"class C"+v+" { static { "+kw+" } }",
+			"class C"+v+" { static { { "+kw+" } } static { try { "+kw+" } finally { } } }",
+			"class C"+v+" { f = "+kwe+"; static s = "+kwe+"; }",
+			"class C"+v+" { ["+kwe+"]() {} static ["+kwe+"] = 1; }",
+			"class C"+v+" { get g() { "+kw+" } set g(q) { "+kw+" } static m() { "+kw+" } #p() { "+kw+" } }",
+			"class C"+v+" extends ("+kwe+") { constructor() { "+kw+" } }",
+			"({ m() { "+kw+" }, get g() { "+kw+" }, ["+kwe+"]: 1, *gen() { "+kw+" }, async am() { "+kw+" } });",
+			"(() => { "+kw+" })();", "(() => "+kwe+")();", "(async () => { "+kw+" })();",
+			"(function() { "+kw+" })();", "(function*() { "+kw+" })().next();", "(async function() { "+kw+" })();", "(async function*() { "+kw+" })().next();",
+			"(function(p = "+kwe+") {})();", "((p = "+kwe+") => p)();", "(function({q = "+kwe+"} = {}) {})();", "(function*(p = "+kwe+") {})();", "(async (p = "+kwe+") => p)();",
+			"eval(\""+kw+"\");", "(0, eval)(\""+kw+"\");", "new Function(\""+kw+"\")();", "new Function(\"p = "+kwe+"\", \"\")();",
+			"switch (1) { case 1: class D"+v+" { static { "+kw+" } } }",
+			"with (o) { (() => { "+kw+" })(); }",
+		)
+		if g.strict {
+			boundary = strings.ReplaceAll(boundary, "with (o) ", "")
+		}
+		outer := g.pick(
+			"L"+v+": { "+boundary+" }",
+			"L"+v+": for (var i"+v+" = 0; i"+v+" < 1; i"+v+"++) { "+boundary+" }",
+			"L"+v+": do { "+boundary+" } while (0);",
+			"L"+v+": for (var k"+v+" of arr) { try { "+boundary+" } finally { } }",
+			"L"+v+": switch (1) { case 1: "+boundary+" }",
+			"(function*() { L"+v+": for (;;) { "+boundary+" break; } })().next();",
+			"(async function() { L"+v+": { "+boundary+" } })();",
+			"(function() { L"+v+": { "+boundary+" } })();",
+			"class O"+v+" extends Object { constructor() { super(); L"+v+": { "+boundary+" } } m() { L"+v+": while (y++ < 2) { "+boundary+" } } } try { new O"+v+"().m(); } catch (e) {}",
+			boundary,
+		)
+		return outer
 	default: // arguments object, rest, mapped arguments with eval
 		return "(function(p0, p1) { " + g.pick(`"use strict"; `, "") + g.pick("arguments[0] = 2;", "p0 = 3;", `eval("p0 = 4");`, "delete arguments[0];", "arguments.length = 0;", "(() => arguments)();") + " return " + g.pick("p0 + arguments[0]", "[...arguments]", "arguments.callee", "f(...arguments)") + "; })(" + g.args(d) + ");"
 	}
